@@ -1,11 +1,211 @@
-import PonyVerif.Model.Undo
+import PonyVerif.Lemmas.Undo
 /-
-  C13 — a modification that raises leaves the session exactly as it was.  (theorems: work in progress)
+  C13 — a modification that raises leaves the session exactly as it was.
+
+  The model (Model/Undo.lean) mirrors the do/undo structure of pony/orm/core.py: every mutation for which the code registers
+  an undo closure pushes the inverse that closure performs; mutations without a registered inverse are performed without
+  one; a failing call runs the list newest-first.  The theorems below say that this structure restores the whole
+  observation, for EVERY schema, EVERY well-formed store and EVERY call (create, attribute assignment, obj.set(**kw),
+  collection assign / add / remove / clear, delete with cascades of any depth).
 -/
 namespace PonyVerif.Props.C13
 open PonyVerif.Model.Undo
 
-/-- running an empty undo list changes nothing -/
-theorem undoAll_nil (s : Store) : undoAll [] s = s := rfl
+/-- what the property calls "every observable part of the session": the objects with status, primary key, `_save_pos_`,
+    write bits, attribute values and the SetData of every collection (items, added, removed, count); the save queue
+    `objects_to_save` with its positions; the primary-key, unique and composite-key indexes; `modified_collections`.
+    (`cache.modified` is not part of it: the code never restores that flag; a flush with an empty queue writes nothing.) -/
+structure Observation where
+  n : Nat
+  row : ObjId → Option Row
+  toSave : List (Option ObjId)
+  pkIdx : EntId → Nat → Option ObjId
+  idx : AttrId → Nat → Option ObjId
+  cidx : KeyId → List Nat → Option ObjId
+  modColl : AttrId → ObjId → Bool
+
+def observe (s : Store) : Observation :=
+  { n := s.n, row := fun o => if o < s.n then some (s.row o) else none, toSave := s.toSave,
+    pkIdx := s.pkIdx, idx := s.idx, cidx := s.cidx, modColl := s.modColl }
+
+/-- well-formed session: `_save_pos_` and `objects_to_save` agree; the key indexes hold exactly the current key values of live objects -/
+def WF (sch : Schema) (s : Store) : Prop := SaveOk s ∧ IdxOk sch s
+
+theorem observe_eq_of_eqv {s R : Store} (h : Eqv s.n R s) : observe R = observe s := by
+  simp only [observe, h.n, h.toSave, h.pkIdx, h.idx, h.cidx, h.modColl, Observation.mk.injEq, true_and, and_true]
+  funext o
+  by_cases ho : o < s.n
+  · simp only [ho, if_true]; rw [h.row o ho]
+  · simp only [ho, if_false]
+
+/-- THE PROPERTY: a call that raises leaves every observable part of the session as it was -/
+theorem C13 (sch : Schema) (s : Store) (op : Op) (e : Err) (hwf : WF sch s) (h : (stepO sch s op).err = some e) :
+    observe (stepO sch s op).store = observe s := by
+  unfold stepO at h ⊢
+  cases op with
+  | flush ids => simp at h
+  | create ent pk vals =>
+    simp only at h ⊢
+    generalize hr : run1 sch (Op.create ent pk vals) { store := s } = r at h ⊢
+    cases r with
+    | ok st => simp at h
+    | err e' st => exact observe_eq_of_eqv (failing_call_restores _ s e' st hwf.1 hwf.2 hr)
+  | set o a v =>
+    simp only at h ⊢
+    generalize hr : run1 sch (Op.set o a v) { store := s } = r at h ⊢
+    cases r with
+    | ok st => simp at h
+    | err e' st => exact observe_eq_of_eqv (failing_call_restores _ s e' st hwf.1 hwf.2 hr)
+  | setMany o kw =>
+    simp only at h ⊢
+    generalize hr : run1 sch (Op.setMany o kw) { store := s } = r at h ⊢
+    cases r with
+    | ok st => simp at h
+    | err e' st => exact observe_eq_of_eqv (failing_call_restores _ s e' st hwf.1 hwf.2 hr)
+  | add o c items =>
+    simp only at h ⊢
+    generalize hr : run1 sch (Op.add o c items) { store := s } = r at h ⊢
+    cases r with
+    | ok st => simp at h
+    | err e' st => exact observe_eq_of_eqv (failing_call_restores _ s e' st hwf.1 hwf.2 hr)
+  | remove o c items =>
+    simp only at h ⊢
+    generalize hr : run1 sch (Op.remove o c items) { store := s } = r at h ⊢
+    cases r with
+    | ok st => simp at h
+    | err e' st => exact observe_eq_of_eqv (failing_call_restores _ s e' st hwf.1 hwf.2 hr)
+  | clear o c =>
+    simp only at h ⊢
+    generalize hr : run1 sch (Op.clear o c) { store := s } = r at h ⊢
+    cases r with
+    | ok st => simp at h
+    | err e' st => exact observe_eq_of_eqv (failing_call_restores _ s e' st hwf.1 hwf.2 hr)
+  | delete o =>
+    simp only at h ⊢
+    generalize hr : run1 sch (Op.delete o) { store := s } = r at h ⊢
+    cases r with
+    | ok st => simp at h
+    | err e' st => exact observe_eq_of_eqv (failing_call_restores _ s e' st hwf.1 hwf.2 hr)
+
+/-- the same for `step`, the state-transition function of the model -/
+theorem C13_step (sch : Schema) (s : Store) (op : Op) (e : Err) (hwf : WF sch s) (h : (stepO sch s op).err = some e) :
+    observe (step sch s op) = observe s := C13 sch s op e hwf h
+
+/-- pending writes: after a failed call a commit has the same queue, the same positions and the same modified collections to work from -/
+theorem C13_pending_writes (sch : Schema) (s : Store) (op : Op) (e : Err) (hwf : WF sch s) (h : (stepO sch s op).err = some e) :
+    (stepO sch s op).store.toSave = s.toSave ∧ (stepO sch s op).store.modColl = s.modColl ∧
+    ∀ o, o < s.n → ((stepO sch s op).store.row o).savePos = (s.row o).savePos ∧ ((stepO sch s op).store.row o).status = (s.row o).status ∧
+      ((stepO sch s op).store.row o).wbits = (s.row o).wbits ∧ ((stepO sch s op).store.row o).added = (s.row o).added ∧
+      ((stepO sch s op).store.row o).removed = (s.row o).removed := by
+  have h0 := C13 sch s op e hwf h
+  have hq : (observe (stepO sch s op).store).toSave = (observe s).toSave := by rw [h0]
+  have hm : (observe (stepO sch s op).store).modColl = (observe s).modColl := by rw [h0]
+  refine ⟨hq, hm, fun o ho => ?_⟩
+  have hn : (observe (stepO sch s op).store).n = (observe s).n := by rw [h0]
+  have hr : (observe (stepO sch s op).store).row o = (observe s).row o := by rw [h0]
+  have hn' : (stepO sch s op).store.n = s.n := hn
+  simp only [observe, hn', ho, if_true, Option.some.injEq] at hr
+  rw [hr]; exact ⟨rfl, rfl, rfl, rfl, rfl⟩
+
+/-- key lookups after a failed call answer as before -/
+theorem C13_key_lookups (sch : Schema) (s : Store) (op : Op) (e : Err) (hwf : WF sch s) (h : (stepO sch s op).err = some e) :
+    (stepO sch s op).store.pkIdx = s.pkIdx ∧ (stepO sch s op).store.idx = s.idx ∧ (stepO sch s op).store.cidx = s.cidx := by
+  have h0 := C13 sch s op e hwf h
+  exact ⟨by have : (observe (stepO sch s op).store).pkIdx = (observe s).pkIdx := by rw [h0]
+            exact this,
+         by have : (observe (stepO sch s op).store).idx = (observe s).idx := by rw [h0]
+            exact this,
+         by have : (observe (stepO sch s op).store).cidx = (observe s).cidx := by rw [h0]
+            exact this⟩
+
+/-- the empty session is well-formed -/
+theorem C13_WF_init (sch : Schema) : WF sch ({} : Store) :=
+  ⟨fun o ho => absurd ho (Nat.not_lt_zero o), fun o ho => absurd ho (Nat.not_lt_zero o)⟩
+
+/-- a failed call leaves a well-formed session well-formed -/
+theorem C13_failed_call_keeps_WF (sch : Schema) (s : Store) (op : Op) (e : Err) (hwf : WF sch s) (h : (stepO sch s op).err = some e) :
+    WF sch (step sch s op) := by
+  have key : ∀ (r : Res), run1 sch op { store := s } = r → ∀ e' st, r = .err e' st → WF sch (undoAll st.trail st.store) := by
+    intro r hr e' st hrr
+    have he := failing_call_restores op s e' st hwf.1 hwf.2 (hr.trans hrr)
+    exact ⟨hwf.1.of_eqv he, hwf.2.of_eqv he⟩
+  unfold step stepO at *
+  cases op with
+  | flush ids => simp at h
+  | create ent pk vals =>
+    simp only at h ⊢
+    generalize hr : run1 sch (Op.create ent pk vals) { store := s } = r at h ⊢
+    cases r with
+    | ok st => simp at h
+    | err e' st => exact key _ hr e' st rfl
+  | set o a v =>
+    simp only at h ⊢
+    generalize hr : run1 sch (Op.set o a v) { store := s } = r at h ⊢
+    cases r with
+    | ok st => simp at h
+    | err e' st => exact key _ hr e' st rfl
+  | setMany o kw =>
+    simp only at h ⊢
+    generalize hr : run1 sch (Op.setMany o kw) { store := s } = r at h ⊢
+    cases r with
+    | ok st => simp at h
+    | err e' st => exact key _ hr e' st rfl
+  | add o c items =>
+    simp only at h ⊢
+    generalize hr : run1 sch (Op.add o c items) { store := s } = r at h ⊢
+    cases r with
+    | ok st => simp at h
+    | err e' st => exact key _ hr e' st rfl
+  | remove o c items =>
+    simp only at h ⊢
+    generalize hr : run1 sch (Op.remove o c items) { store := s } = r at h ⊢
+    cases r with
+    | ok st => simp at h
+    | err e' st => exact key _ hr e' st rfl
+  | clear o c =>
+    simp only at h ⊢
+    generalize hr : run1 sch (Op.clear o c) { store := s } = r at h ⊢
+    cases r with
+    | ok st => simp at h
+    | err e' st => exact key _ hr e' st rfl
+  | delete o =>
+    simp only at h ⊢
+    generalize hr : run1 sch (Op.delete o) { store := s } = r at h ⊢
+    cases r with
+    | ok st => simp at h
+    | err e' st => exact key _ hr e' st rfl
+
+/-- NOT PROVED here (kept as a statement): successful calls and flush keep the session well-formed.  Its second half (`IdxOk`: the
+    key indexes hold exactly the current key values of live objects) is the invariant of property C11; this check evaluates
+    `WF` on every state it visits, on the model (driver field `wf`) and on the real objects (engine `real_wf`). -/
+def C13_WF_invariant_full : Prop := ∀ (sch : Schema) (s : Store) (op : Op), WF sch s → WF sch (step sch s op)
+
+/-- with that invariant, the property holds in every state reachable by any history of calls -/
+theorem C13_reachable (hinv : C13_WF_invariant_full) (sch : Schema) (history : List Op) (op : Op) (e : Err)
+    (h : (stepO sch (run sch {} history) op).err = some e) :
+    observe (step sch (run sch {} history) op) = observe (run sch {} history) := by
+  have hwf : ∀ (ops : List Op) (s : Store), WF sch s → WF sch (run sch s ops) := by
+    intro ops
+    induction ops with
+    | nil => intro s hs; exact hs
+    | cons o ops ih => intro s hs; exact ih _ (hinv sch s o hs)
+  exact C13 sch _ op e (hwf history {} (C13_WF_init sch)) h
+
+/-! ### the hypotheses are satisfiable, the conclusion is not vacuous -/
+
+/-- one entity E0 with a one-to-many collection `a0` (reverse `a1`, Optional) and a blocking collection `a2` (reverse `a3`, Required,
+    no cascade): deleting the parent first clears `a0` through `Set.__set__(obj, (), undo_funcs)` and is then refused -/
+def demoSchema : Schema :=
+  { attrs := [ { ent := 0, kind := .coll, rev := 1 }, { ent := 1, kind := .ref, rev := 0 },
+               { ent := 0, kind := .coll, rev := 3 }, { ent := 2, kind := .ref, rev := 2, required := true } ], ckeys := [] }
+
+def demoHistory : List Op :=
+  [ .create 0 (some 1) [], .create 1 (some 1) [(1, .val (some 0))], .create 2 (some 1) [(3, .val (some 0))] ]
+
+/-- the delete of the parent fails ... -/
+example : (stepO demoSchema (run demoSchema {} demoHistory) (.delete 0)).err = some .constraintError := by decide
+
+/-- ... after it registered undo entries (the child's reference, the reverse removal, the collection rewrite) -/
+example : (run1 demoSchema (.delete 0) { store := run demoSchema {} demoHistory }).st.trail.length = 3 := by decide
 
 end PonyVerif.Props.C13
